@@ -657,6 +657,8 @@ func (se *SessionExecutor) handleKeepSessionPing() (err error) {
 			}
 			ksConn.Recycle()
 		}
+		// the connections were given back: they are no longer this session's (handleKsQuit must not return them again)
+		se.ksConns = make(map[string]backend.PooledConnect)
 		return mysql.ErrBadConn
 	}
 
